@@ -106,6 +106,12 @@ def _rets_in(st, acc):
                 for leaf, p in return_leaves(n["e"], tuple(pre)):
                     yield leaf, p
             return
+        if k == "SLet" and "els" in n and "init" in n:
+            # a return in the `else` of `let P = e else { .. }` happens after e was evaluated (and did not match)
+            yield from go(n["init"], pre)
+            for leaf, p in go(n["els"], []):
+                yield leaf, [{"k": "LetElseOf", "init": n["init"]}] + list(p)
+            return
         if k == "Block":
             acc2 = []
             for s in n.get("stmts", []):
@@ -163,6 +169,35 @@ def helper_reports(X, npath, depth=0):
     return seen_failure
 
 
+def _reported_by_helper(X, st, depth=0):
+    """the statement is the marker of a `let P = helper(..) else` whose helper (a function of this crate) writes the last error
+    on every path on which it answers None / Err: the failure handled in the `else` has already been reported"""
+    if st.get("k") != "LetElseOf" or depth > 2:
+        return False
+    import sem
+    c = sem.peel(st["init"])
+    if c.get("k") not in ("Call", "MethodCall"):
+        return False
+    hx = X.hir_by_dp.get(c.get("resolved_dp") or c.get("callee_dp") or "") or X.hir(norm(c.get("callee", "")))
+    if not hx or "body" not in hx:
+        return False
+    seen_failure = False
+    for leaf, pre in return_leaves(hx["body"]):
+        l = strip(leaf)
+        head = sem.ctor_head(l)
+        if head in ("Option::Some", "Result::Ok"):
+            continue
+        if head in ("Option::None", "Result::Err"):
+            seen_failure = True
+            if not any(is_last_error_write(s_) or _reported_by_helper(X, s_, depth + 1) for s_ in pre):
+                return False
+            continue
+        if l.get("ty") == "!":
+            continue
+        return False
+    return seen_failure
+
+
 def rule_lasterr(X, R, rule="R20-lasterr"):
     fns = extern_fns(X)
     R.floor(rule, "extern \"C\" functions", len(fns), 30)
@@ -189,7 +224,7 @@ def rule_lasterr(X, R, rule="R20-lasterr"):
             checked += 1
             where = leaf.get("sp", it["span"])
             if cls == "failure":
-                ok = any(is_last_error_write(s) for s in pre)
+                ok = any(is_last_error_write(s) or _reported_by_helper(X, s) for s in pre)
                 R.check(ok, rule, fn, "failure value is accompanied by a last-error write",
                         "a path returns a failure value without writing the thread's last-error message", where)
             elif cls == "unreported":
@@ -539,6 +574,10 @@ def rule_delegate(X, R, rule="R20-delegate"):
                 if n_ in tail_params:
                     return True
                 ini_ = let_init(h["body"], n_) if n_ and depth < 4 else None
+                if ini_ is None and n_ and depth < 4:
+                    # bound by a refutable pattern: `let Some(value) = helper(.., json) else { return false };`
+                    cands_ = [st_["init"] for st_ in exprs(h["body"], "SLet") if "init" in st_ and n_ in pat_bindings(st_["pat"])]
+                    ini_ = cands_[0] if len(cands_) == 1 else None
                 return ini_ is not None and any(from_value(p_, depth + 1) for p_ in exprs(ini_, "Path") if local_name(p_))
             R.check(nm_ok and any(from_value(v_) for v_ in val if v_), rule, name, "passes its own name and value on", "(%s, %s)" % (nm, val), c["sp"])
     # the list constructors use the matching built-in definition
